@@ -27,7 +27,8 @@ ASSUMPTIONS = [
 	'CSV read back with csv.reader over newline-preserving text (newline=""), as the csv module documents',
 ]
 
-ALPHABET = ['plain', 'a,b', 'say "x"', 'line\nbreak', 'crlf\r\nx', 'ünï-中', '', ' lead trail ', '=1+1', 'bare\rcr']
+ALPHABET = ['plain', 'a,b', 'say "x"', 'line\nbreak', 'crlf\r\nx', 'ünï-中 e\u0301 \u212b \ufb01', '', ' lead trail ',      # composed, DEcomposed (e + combining acute), compatibility characters: text is passed through as it is
+             '=1+1', 'bare\rcr']
 FINDING_CR = 'csv-bare-carriage-return'
 
 # documented CSV columns (docs/source/cli.rst), written out independently of the exporter's table
